@@ -1,10 +1,19 @@
 (* C03 - every delivered event is justified and correctly typed; single operations meet their contract.
-   Only statements; every proof is `exact <lemma>`.  Definitions: Model/Contract.v
-   (contract, deliver_one, cover, justified, sound_along); proofs: Proofs/ContractProofs.v. *)
+   Only statements; every proof is `exact <lemma>`.  Definitions: Model/Contract.v (contract, deliver_one, cover, justified,
+   sound_along); proofs: Proofs/ContractProofs.v, TieProofs.v, MoveOutProofs.v, ReplaceProofs.v, SoundSeqProofs.v, SoundPipeProofs.v.
+   PROVED: the shape laws of emit; the per-operation contract for every operation kind from covered / synchronised states
+   (the C03_contract_ theorems); deliver_one = one Pipeline block (C03_pipeline_tie); and on the Pipeline model, for block histories (one
+   operation, the whole kernel queue read, the pairing delay, everything emitted) of the class ops_x3 from pinit - covered
+   operations, directory move-ins, move-outs and what follows them, a directory renamed over an empty directory of the tree -
+   COMPLETENESS (the stream is the per-operation contracts, block by block up to collapse: C03_contract_sequential) and
+   SOUNDNESS (sound_along holds: C03_sound_pipeline_sequential).  The pinned refutations (F10, F10e) and their _repaired twins.
+   STATED ONLY: C03_sound_full_current - soundness over ALL interleavings: bursts of operations before a read, partial reads
+   (ARead k cutting the queue), the pairing delay not elapsed between read and emit. *)
 Require Import WD.Base.Prelude WD.Base.BStr WD.Model.SubEvents WD.Model.Emitter WD.Model.Fs WD.Model.Reader
                WD.Model.DelayQueue WD.Model.Grouping WD.Model.Pipeline WD.Model.Contract.
 Require Import WD.Proofs.ContractProofs WD.Proofs.TieProofs WD.Proofs.MoveOutProofs WD.Proofs.CoverProofs WD.Proofs.ReplaceProofs
-               WD.Proofs.CoverOutProofs WD.Proofs.ReplayProofs WD.Proofs.ReplayOutProofs WD.Proofs.SoundSeqProofs.
+               WD.Proofs.CoverOutProofs WD.Proofs.ReplayProofs WD.Proofs.ReplayOutProofs WD.Proofs.SoundSeqProofs
+               WD.Proofs.ReplayPipeProofs WD.Proofs.SoundPipeProofs.
 
 (* ================================================================== soundness: shape of what [emit] produces *)
 (* Hold for every item, every configuration, every content oracle - no hypothesis. *)
@@ -383,9 +392,9 @@ Print Assumptions C03_f10e_repaired.
 
 (* History-level soundness of the current code (all five reader repairs on): stated, NOT proved.  Nothing refutes it any
    more: F10, its nested variant and F10e are repaired (the three _repaired theorems above), and the thorough tier of this
-   check finds no unjustified event on the patched observer.  Its sequential instance is proved (C03_sound_sequential:
-   block-wise histories of the class ops_x1); what is left are the interleavings - bursts of operations before a read,
-   partial reads, the pairing delay. *)
+   check finds no unjustified event on the patched observer.  Its sequential instance is proved, also on the Pipeline model
+   (C03_sound_pipeline_sequential: block histories of the class ops_x3 from pinit); what is left are the interleavings -
+   bursts of operations before a read, partial reads, the pairing delay not elapsed between read and emit. *)
 Definition C03_sound_full_current : Prop :=
   forall P w s0 h, pc_filter P = None -> c_mask (pc_reader P) = WATCHDOG_ALL ->
     c_fix_ignored (pc_reader P) = true -> c_fix_movein (pc_reader P) = true -> c_fix_simulate (pc_reader P) = true ->
@@ -429,6 +438,54 @@ Theorem C03_sound_sequential_from_start : forall C full, c_faults C = [] -> c_fi
   exists r0 k0, construct C kinit (w_fs w) = Some (r0, k0) /\ srun C full w k0 r0 ops [] = Some true.
 Proof. exact sound_from_start_x. Qed.
 Print Assumptions C03_sound_sequential_from_start.
+
+(* ================================================================== sequential histories on the Pipeline model *)
+(* ops_x3: c02p's class ops_x1 (covered operations, directory move-ins, directory move-outs and the operation that follows
+   one) plus, from a state with nothing pending, a directory of the tree renamed over an empty directory of the tree
+   (c3_over).  Every block of such a history delivers the operation's contract, from every GS state. *)
+Theorem C03_block_contract_x3 : forall C full, c_faults C = [] -> c_fix_moveout C = true -> c_mask C = WATCHDOG_ALL ->
+  forall w k r hot o w', GS C w k r hot -> step_ok3 C w hot o -> apply_op w o = Some w' ->
+  let k1 := kernel_op k (w_fs w) o in
+  exists r' k' raws, read_batch C (w_fs w') (r, drainq k1, []) (k_queue k1) = Done (r', k', raws) /\
+    GS C w' k' r' (hot_next C w hot o) /\ Forall (rsafe C) raws /\
+    collapse (delivered C full w' raws) = collapse (contract (c_recursive C) full (c_root C) (w_fs w) o).
+Proof. exact gs_contract_step3. Qed.
+Print Assumptions C03_block_contract_x3.
+
+(* Block histories on the Pipeline model ([block_hist_x]: per operation AOp; ARead of the whole kernel queue; ATick of the
+   pairing delay; AEmit until the buffer is empty - an operation whose system call fails is a lone AOp): from every state
+   whose pipeline is idle and whose reader is in GS ([PSx]), an ops_x3 history has a block history that runs without crash,
+   along which [sound_along] holds (every event queued by an AEmit is justified by the operations executed before it), and
+   whose stream is, block by block, the contract of the operation up to collapse. *)
+Theorem C03_blocks_sound : forall P, let C := pc_reader P in
+  c_faults C = [] -> c_fix_moveout C = true -> c_mask C = WATCHDOG_ALL -> pc_filter P = None ->
+  forall ops s hot recs, PSx P s hot -> ops_x3 C (p_world s) hot ops ->
+  exists h s' obs hot' chunks, block_hist_x P s ops h /\ prun P s h [] = Done (s', obs) /\ PSx P s' hot' /\
+    sound_along P s recs h = true /\
+    p_out s' = p_out s ++ concat chunks /\
+    Forall2 (fun ch ct => collapse ch = collapse ct) chunks (contracts_of C (pc_full P) (p_world s) ops).
+Proof. exact blocks_sound. Qed.
+Print Assumptions C03_blocks_sound.
+
+(* From pinit on any well-formed world: SOUNDNESS ... *)
+Theorem C03_sound_pipeline_sequential : forall P ops w s0, let C := pc_reader P in
+  c_faults C = [] -> c_fix_moveout C = true -> c_mask C = WATCHDOG_ALL -> pc_filter P = None -> wf_fs w ->
+  fisdir (c_root C) (w_fs w) = true -> pinit P w = Some s0 -> ops_x3 C w None ops ->
+  exists h s' obs, block_hist_x P s0 ops h /\ prun P s0 h [] = Done (s', obs) /\ sound_along P s0 [] h = true.
+Proof. exact sound_pipeline_sequential. Qed.
+Print Assumptions C03_sound_pipeline_sequential.
+
+(* ... and COMPLETENESS: the delivered stream is the concatenation of the per-operation contracts, block by block up to
+   collapse of adjacent duplicates. *)
+Theorem C03_contract_sequential : forall P ops w s0, let C := pc_reader P in
+  c_faults C = [] -> c_fix_moveout C = true -> c_mask C = WATCHDOG_ALL -> pc_filter P = None -> wf_fs w ->
+  fisdir (c_root C) (w_fs w) = true -> pinit P w = Some s0 -> ops_x3 C w None ops ->
+  exists h s' obs chunks, block_hist_x P s0 ops h /\ prun P s0 h [] = Done (s', obs) /\
+    sound_along P s0 [] h = true /\
+    p_out s' = concat chunks /\
+    Forall2 (fun ch ct => collapse ch = collapse ct) chunks (contracts_of C (pc_full P) w ops).
+Proof. exact sound_pipeline_from_start. Qed.
+Print Assumptions C03_contract_sequential.
 
 (* ================================================================== tie to the Pipeline model *)
 (* [deliver_one] is what the Pipeline model (validated in lock-step against the real observer) delivers for
@@ -629,3 +686,16 @@ Example C03_sound_sequential_nonvacuous :
       length out = 9%nat /\ forallb (fun e => negb (under pO (ev_src e))) out = true) /\
   (exists s0, pinit phx_P w0 = Some s0 /\ sound_along phx_P s0 [] (block_history phx_ops) = true).
 Proof. split; [exact phx_ops_x1 | split; [exact phx_run | exact phx_pipeline]]. Qed.
+
+(* C03_contract_sequential / C03_sound_pipeline_sequential: mkdir R/a; touch R/a/f; mkdir R/b; mv R/a R/b (over the empty
+   directory b); mv R/b O/x (leaves the tree); mkdir R/b (name re-created while the candidate is pending); touch O/x/g
+   (inside the departed directory) is in ops_x3; with the fixed block shape AOp; ARead 100; ATick 10; AEmit x4 the Pipeline
+   model delivers 18 events, sound_along holds, the stream is the concatenation of the seven contracts up to collapse, and
+   the replaced directory's DirModified(/s/R/b) is among them. *)
+Example C03_pipeline_sequential_nonvacuous :
+  ops_x3 (cfgo true) w0 None seq3_ops /\
+  exists s0 s obs, pinit phx_P w0 = Some s0 /\ prun phx_P s0 (block_history seq3_ops) [] = Done (s, obs) /\
+    sound_along phx_P s0 [] (block_history seq3_ops) = true /\
+    collapse (p_out s) = collapse (concat (contracts_of (cfgo true) false w0 seq3_ops)) /\
+    length (p_out s) = 18%nat /\ In (mk DirModified (sub pR 98) []) (p_out s).
+Proof. split; [exact seq3_ops_x3 | exact seq3_run]. Qed.
